@@ -7,7 +7,7 @@
     * den:   the denotation of the tree is the exponent map `u`.
   `C12_complete` then gives the round trip.
 -/
-import QExPy.Lemmas.ParseAst
+import QExPy.Lemmas.ParseSpec
 import QExPy.Lemmas.PrintNum
 namespace QExPy.U
 
@@ -370,6 +370,18 @@ theorem sumE_split (u : Units) (hz : ∀ p ∈ u, p.2 ≠ 0) (t : Sym) :
 theorem fracE_den (u : Units) (hw : WF u) (hz : ∀ p ∈ u, p.2 ≠ 0) (t : Sym) :
     (fracE u).den t = expOf u t := by
   rw [fracE_den_sum, sumE_split u hz, sumE_eq_expOf u hw]
+
+theorem pos_or_neg (u : Units) (hne : u ≠ []) (hz : ∀ p ∈ u, p.2 ≠ 0) :
+    posPart u ≠ [] ∨ negPart u ≠ [] := by
+  cases u with
+  | nil => exact absurd rfl hne
+  | cons p r =>
+    obtain ⟨k, e⟩ := p
+    have h0 : e ≠ 0 := hz (k, e) (by simp)
+    rcases lt_trichotomy e 0 with hlt | heq | hgt
+    · right; simp [negPart, hlt]
+    · exact absurd heq h0
+    · left; simp [posPart, hgt]
 
 theorem numE_shape (u : Units) (hs : ∀ x ∈ u, SymOK x.1) :
     ((numE u).toks = [.one]) ∨
